@@ -617,6 +617,137 @@ def _r09h(rep):
 
 
 
+def _r09l(rep):
+    """Degree typing of the compiled mesh consumers in the multiplicities of the irreducible q-points."""
+    from engine import cast
+
+    rep.rule("R09l", "compiled mesh consumers (c/phonopy.c: thermal sums, tetrahedron DOS): every value stored into an output array, directly or through a scratch array, is homogeneous of degree 1 in the multiplicity weights[i] of its q-point -- degree typing of the C expressions: weights[.] has degree 1, data and constants degree 0, a product adds and a quotient subtracts degrees, the terms of a sum agree, arguments of calls have degree 0, a scalar or array has the degree of what is stored into it (literal zeros fit every degree)", 2)
+    rel = "c/phonopy.c"
+    tu = cast.load(rel)
+    n_fn = 0
+    for fname, fn in tu.functions.items():
+        try:
+            body = cast.body(fn)
+        except AnalysisError:
+            continue
+        decls = {x.get("name"): cast.qtype(x) for x in cast.walk(fn) if x.get("kind") in ("VarDecl", "ParmVarDecl")}
+        if "weights" not in decls or "*" not in decls["weights"]:
+            continue
+        n_fn += 1
+        outputs = [p_.get("name") for p_ in cast.params(fn) if "*" in cast.qtype(p_) and not cast.qtype(p_).strip().startswith("const")]
+        deg: dict = {}  # name -> 0 | 1 | 'mixed'   (absent: only literal zeros stored so far / never stored)
+        notes: dict = {}
+
+        def join(a, b):
+            if a is None:
+                return b
+            if b is None:
+                return a
+            return a if a == b else "mixed"
+
+        def d_of(e):
+            """degree of an expression: int, None for a literal zero, 'mixed'"""
+            e = cast.strip(e)
+            k = e.get("kind")
+            ks = cast.kids(e)
+            if k in ("IntegerLiteral", "FloatingLiteral"):
+                try:
+                    return None if float(e.get("value")) == 0 else 0
+                except (TypeError, ValueError):
+                    return 0
+            if k in ("ImplicitCastExpr", "CStyleCastExpr", "ParenExpr") and ks:
+                return d_of(ks[0])
+            if k == "DeclRefExpr":
+                nm = e.get("referencedDecl", {}).get("name")
+                return deg.get(nm, 0) if nm in deg else 0
+            if k == "ArraySubscriptExpr":
+                base = e
+                while cast.strip(base).get("kind") == "ArraySubscriptExpr":
+                    base = cast.kids(cast.strip(base))[0]
+                nm = cast.ref_name(base)
+                if nm == "weights":
+                    return 1
+                return deg.get(nm, 0)
+            if k == "UnaryOperator":
+                return d_of(ks[0]) if e.get("opcode") in ("-", "+") else 0
+            if k == "BinaryOperator":
+                op = e.get("opcode")
+                a, b = d_of(ks[0]), d_of(ks[1])
+                if op == "*":
+                    if a is None or b is None:
+                        return None
+                    return "mixed" if "mixed" in (a, b) else a + b
+                if op == "/":
+                    if a is None:
+                        return None
+                    return "mixed" if "mixed" in (a, b) or b is None else a - b
+                if op in ("+", "-"):
+                    return join(a, b)
+                return 0  # comparisons, logic
+            if k == "ConditionalOperator":
+                return join(d_of(ks[1]), d_of(ks[2]))
+            if k == "CallExpr":
+                ds = [d_of(a) for a in cast.call_args(e)]
+                return 0 if all(x in (0, None) for x in ds) else "mixed"
+            return 0
+
+        stores = []
+        for x in cast.walk(body):
+            k = x.get("kind")
+            if (k == "BinaryOperator" and x.get("opcode") == "=") or k == "CompoundAssignOperator":
+                lhs = cast.strip(cast.kids(x)[0])
+                base = lhs
+                while cast.strip(base).get("kind") == "ArraySubscriptExpr":
+                    base = cast.kids(cast.strip(base))[0]
+                nm = cast.ref_name(base)
+                if cast.strip(lhs).get("kind") == "DeclRefExpr" and "*" in decls.get(nm or "", ""):
+                    continue  # the pointer itself is set (malloc, NULL), not what it points to
+                if nm and nm != "weights":
+                    stores.append((nm, x))
+            elif k == "UnaryOperator" and x.get("opcode") in ("++", "--"):
+                nm = cast.ref_name(cast.kids(x)[0])
+                if nm:
+                    stores.append((nm, x))
+        for _ in range(6):  # fixpoint over the few names of a kernel
+            before = dict(deg)
+            for nm, x in stores:
+                if x.get("kind") == "UnaryOperator":
+                    deg[nm] = join(deg.get(nm), 0)
+                    continue
+                op = x.get("opcode")
+                r = d_of(cast.kids(x)[1])
+                if op in ("=", "+=", "-="):
+                    if r is not None:
+                        deg[nm] = join(deg.get(nm), r)
+                elif op in ("*=", "/="):
+                    if r not in (0, None):
+                        deg[nm] = "mixed"
+            if deg == before:
+                break
+        n_store = 0
+        for nm, x in stores:
+            if nm not in outputs or x.get("kind") == "UnaryOperator":
+                continue
+            r = d_of(cast.kids(x)[1])
+            if r is None:
+                continue  # a literal zero
+            n_store += 1
+            blame = []
+            if r != 1:
+                for y in cast.walk(cast.kids(x)[1]):
+                    n2 = y.get("referencedDecl", {}).get("name") if y.get("kind") == "DeclRefExpr" else None
+                    if n2 and deg.get(n2) == "mixed":
+                        for n3, x3 in stores:
+                            if n3 == n2 and x3.get("kind") != "UnaryOperator" and d_of(cast.kids(x3)[1]) not in (1, None):
+                                blame.append(f"line {tu.line(x3)}: '{core.norm(cast.text(x3), 90)}' has degree {d_of(cast.kids(x3)[1])}")
+            rep.instance("R09l", rel, fname, f"{core.norm(cast.text(x), 110)} : degree 1 in weights", r == 1,
+                         f"'{core.norm(cast.text(x), 140)}' has degree {r} in the multiplicity of the q-point, not 1" + (" (" + "; ".join(sorted(set(blame))[:4]) + ")" if blame else "") + ": the contribution of an irreducible q-point does not stand for its whole star, and the sum over the reduced mesh differs from the sum over the full mesh wherever a weight exceeds 1", line=tu.line(x))
+        if not n_store:
+            raise AnalysisError(f"R09l: {fname} has the q-point weights but stores nothing that depends on them into its outputs {outputs}")
+    if n_fn < 2:
+        raise AnalysisError(f"R09l: {n_fn} kernels of c/phonopy.c take the q-point weights (thermal sums and tetrahedron DOS expected)")
+
+
 def _r09j(rep):
     """Normalisation by the weights is global: sum over all irreducible q of w_q f_q divided by the sum of all w_q."""
     rep.rule("R09j", "the weighted mean over the irreducible q-points is normalised by the total weight: no consumer normalises with the weights of a block / slice of the q-points (np.average(..., weights=w[a:b]), division by sum(w[a:b])) and recombines the partial means by block size, which is exact only for equal weights (mesh symmetry off)", 3)
@@ -673,6 +804,7 @@ def run(rep: core.Report):
     _run_main(rep)
     _r09h(rep)
     _r09j(rep)
+    _r09l(rep)
     from rules import shared_sorted
 
     shared_sorted.run(rep, "R09k", ["phonopy/structure/grid_points.py", "phonopy/phonon/moment.py", "phonopy/phonon/mesh.py"])
@@ -688,6 +820,10 @@ def selftest():
     b("generic shift keeps time reversal", GP, "            self._is_mesh_symmetry = False\n            self._is_time_reversal = False\n", "            self._is_mesh_symmetry = False\n", "R09b", "GridPoints.__init__")
     b("mesh passes raw time reversal", MESH, "is_time_reversal=(is_time_reversal and is_mesh_symmetry),", "is_time_reversal=is_time_reversal,", "R09b", "GridPoints(", nth=0)
     b("weights counted over unique points only", GP, "    for gp in grid_mapping_table:\n        weights[gp] += 1", "    for gp in ir_grid_points:\n        weights[gp] += 1", "R09a", "weights")
+    b("compiled heat capacity without the multiplicity", "c/phonopy.c", "                        get_heat_capacity(temperatures[j], f, classical) *\n                        weights[i];", "                        get_heat_capacity(temperatures[j], f, classical);", "R09l", "phpy_get_thermal_properties")
+    V.append(dict(name="compiled thermal sums: multiplicity through an integer local", kind="neutral", edits=[
+        dict(file="c/phonopy.c", old="                    tp[i * num_temp * 3 + j * 3] +=\n                        get_free_energy(temperatures[j], f, classical) *\n                        weights[i];", new="                    k_w = weights[i];\n                    tp[i * num_temp * 3 + j * 3] +=\n                        get_free_energy(temperatures[j], f, classical) *\n                        k_w;"),
+        dict(file="c/phonopy.c", old="    int64_t i, j, k;\n    double f;\n    double *tp;", new="    int64_t i, j, k, k_w;\n    double f;\n    double *tp;")]))
     b("thermal sum forgets the weight", "phonopy/phonon/thermal_properties.py", "                    np.sum(func(t, freqs[cond], classical=self._classical)) * w\n", "                    np.sum(func(t, freqs[cond], classical=self._classical))\n", "R09d", "_calculate_thermal_property")
     b("thermal displacement accepts a reduced mesh", API, "        if np.prod(mesh_nums) != len(ir_grid_points):\n            msg = \"run_mesh has to be done with is_mesh_symmetry=False.\"\n            raise RuntimeError(msg)\n\n        if direction is not None:\n            projection_direction", "        if direction is not None:\n            projection_direction", "R09d", "run_thermal_displacements")
     MO = "phonopy/phonon/moment.py"
